@@ -72,10 +72,7 @@ Theorem C01_read_unsized : forall b, uwell b = true ->
   /\ snd (drain_all (ustream nofault b 0) [] []) = StEOF
   /\ (forall ops, map forget_loads (ureader_run nofault b rs0 ops) = abs_run (content b) 0 ops)
   /\ usize nofault b = Ok (zlen (content b)).
-Proof.
-  intros b Hw. rewrite (unsized_read_all b Hw). cbn [fst snd].
-  split; [reflexivity|]. split; [reflexivity|]. split; [intros ops; apply ureader_refines_fresh; exact Hw|apply usize_ok; exact Hw].
-Qed.
+Proof. exact read_unsized. Qed.
 Print Assumptions C01_read_unsized.
 
 (* non-vacuity: a three-level DAG without any BlockSizes / FileSize above its leaves has true measured sizes, and a
